@@ -32,8 +32,13 @@ func (c *Ctx) errorEdgeFatal(fi *load.FuncInfo, g *cfgx.Graph, call *ast.CallExp
 				if !ok {
 					continue
 				}
+				callV := g.VertexOf(call)
 				for _, d := range defsOf(info, fi.Node(), astx.Obj(info, id)) {
 					if d == ast.Expr(call) || (d != nil && d.Pos() == call.Pos()) {
+						// the test must come after the call (the variable may be reused for earlier calls)
+						if !g.DominatedBy(e.From, func(x *cfgx.Vertex) bool { return x.ID == callV }) {
+							continue
+						}
 						reach := g.Reach(e.To, nil, nil)
 						if !reach[g.Exit] {
 							return true
